@@ -25,6 +25,21 @@ class NotMemoized(NonMemoizedException):
     pass
 
 
+class Holder:
+    """exception classes defined inside another class (qualified name 'Holder.NestedErr')"""
+
+    class NestedErr(Exception):
+        pass
+
+    class Inner:
+        class DeepErr(ValueError):
+            pass
+
+
+class NestedErr(RuntimeError):
+    """a different, top-level class that shares its short name with Holder.NestedErr"""
+
+
 def raise_kind(kind, msg):
     if kind == "ValueError":
         raise ValueError(msg)
@@ -42,13 +57,17 @@ def raise_kind(kind, msg):
         class LocalErr(Exception):
             pass
         raise LocalErr(msg)
+    if kind == "NestedErr":
+        raise Holder.NestedErr(msg)
+    if kind == "DeepErr":
+        raise Holder.Inner.DeepErr(msg)
     if kind == "NotMemoized":
         raise NotMemoized(msg)
     raise AssertionError(kind)
 
 
 REBUILDABLE = {"ValueError": ValueError, "KeyError": KeyError, "ZeroDivisionError": ZeroDivisionError,
-               "CustomErr": CustomErr}
+               "CustomErr": CustomErr, "NestedErr": Holder.NestedErr, "DeepErr": Holder.Inner.DeepErr}
 
 
 @m.memento_function(cluster="c", version="1")
